@@ -374,7 +374,9 @@ func famPlan(tr *Trace, scratch string, seed int64, tier string, workers int) M 
 	nGlobx := 0
 	{
 		subdirs := []string{"con", "conf", "conf.d", "confx/deep"}
-		pats := []string{"g/*/*.cfg", "g/*/*", "g/c*/*.cfg", "g/conf*/m*", "g", "g/conf", "g/*", "g/conf/m.cfg", "g/*/m.cfg", "g/conf*"}
+		pats := []string{"g/*/*.cfg", "g/*/*", "g/c*/*.cfg", "g/conf*/m*", "g", "g/conf", "g/*", "g/conf/m.cfg", "g/*/m.cfg", "g/conf*",
+			// classes, alternatives, ** and single-character wildcards
+			"g/{con,conf}/*.cfg", "g/c[o]n*/*", "g/**/m.cfg", "g/**", "g/conf?d/*", "g/[!c]*", "g/con[a-f]/*", "g/**/*.cfg", "g/{conf.d,confx}/**", "g/*/rea?me", "g/con{,f}/m.cfg"}
 		for mask := 1; mask < 1<<len(subdirs); mask++ {
 			var nodes []Node
 			nodes = append(nodes, Node{P: "g", Kind: "dir", Mode: 0o755, Mt: 1500000000})
